@@ -1,6 +1,9 @@
 package snapshot
 
-import "github.com/VictoriaMetrics/fastcache"
+import (
+	"github.com/VictoriaMetrics/fastcache"
+	"github.com/kardiachain/go-kardia/lib/common"
+)
 
 // VerifDiskCache re-exports the clean cache of the tree's disk layer. The
 // statesim engine creates thousands of short-lived trees per process; the cache
@@ -12,4 +15,19 @@ func (t *Tree) VerifDiskCache() *fastcache.Cache {
 		return dl.cache
 	}
 	return nil
+}
+
+// VerifLinksToStale reports whether the layer registered for root, or a layer
+// underneath it, has already been flattened away (unexported Stale/Parent). Cap
+// asserts (panics) when asked to flatten such a dead fork a second time; the
+// engine uses this accessor to stay inside that contract.
+func (t *Tree) VerifLinksToStale(root common.Hash) bool {
+	t.lock.RLock()
+	defer t.lock.RUnlock()
+	for l := t.layers[root]; l != nil; l = l.Parent() {
+		if l.Stale() {
+			return true
+		}
+	}
+	return false
 }
